@@ -46,6 +46,11 @@ Definition enc_cell (c : cell) : list N :=
 Definition dk_eqb := outcome_eqb DecodedKey_eqb.
 Lemma dk_eqb_true : forall a b, dk_eqb a b = true -> a = b.
 Proof. intros a b H. unfold dk_eqb in H. beq H. exact H. Qed.
+Lemma dk_eqb_refl : forall a, dk_eqb a a = true.
+Proof.
+  intros a. unfold dk_eqb. destruct (outcome_eqb_spec DecodedKey_eqb DecodedKey_eqb_spec a a) as [_|N]; [reflexivity|].
+  exfalso. apply N. reflexivity.
+Qed.
 
 (* known findings are listed per (layout, key): [layout index; key tag] *)
 Definition known_in (kn : list (list N)) (l : AnyLayout) (k : KeyCode) : bool :=
